@@ -16,10 +16,10 @@ type Base struct {
 	Floor  map[string]int
 }
 
-func (b *Base) ID() string              { return b.Id }
-func (b *Base) Level() string           { return b.Lvl }
-func (b *Base) Rule() string            { return b.RuleS }
-func (b *Base) Assumptions() []string   { return b.Assume }
-func (b *Base) NumCases() int           { return b.N }
-func (b *Base) Floors() map[string]int  { return b.Floor }
-func (b *Base) rnd(i int) *fw.Rand      { return b.Env.Rand(b.Id, i) }
+func (b *Base) ID() string             { return b.Id }
+func (b *Base) Level() string          { return b.Lvl }
+func (b *Base) Rule() string           { return b.RuleS }
+func (b *Base) Assumptions() []string  { return b.Assume }
+func (b *Base) NumCases() int          { return b.N }
+func (b *Base) Floors() map[string]int { return b.Floor }
+func (b *Base) rnd(i int) *fw.Rand     { return b.Env.Rand(b.Id, i) }
